@@ -8,7 +8,7 @@
 (*           fallback, static, decodable, encodable, repeating, fields]    *)
 (* field:   [o, id, dbid, name, unit, qty, type, kind, pk, off, len,       *)
 (*           signed, twos, match, lookup, excessK, hasRange, lo, hi,       *)
-(*           sentinelInRange, resNum, resDen, zeroOk]                      *)
+(*           sentinelInRange, resNum, resDen, zeroOk, lenField]            *)
 (*   lo/hi are tick bounds ceil((RangeMin-Offset)/Res), floor((RangeMax-   *)
 (*   Offset)/Res) as sign-magnitude bit integers.                          *)
 (***************************************************************************)
